@@ -249,6 +249,17 @@ def gen_expiry(seed, big):
             exp = 'A\nC\n' if d >= 0 else src
             out.append((dict(cfg(current=cur, offset=o), mode='clean', source=src, ds='<', de='>'),
                         (lambda e, dd, oo: lambda r: None if r.get('ok') and r.get('output') == e else f'expiry decision wrong at now - to = {dd}s, offset {oo}: ' + json.dumps(r, ensure_ascii=False)[:160])(exp, d, o)))
+    # the current instant may carry a fraction of a second: any instant before `to` keeps the element, `to` itself and
+    # anything later removes it - no rounding to whole seconds
+    for o, secs in (('+00:00', 0), ('+0900', 9 * 3600), ('-03:30', -(3 * 3600 + 30 * 60))):
+        to_utc = base - datetime.timedelta(seconds=secs)
+        for ms, ready in ((-1, False), (-500, False), (-999, False), (-1001, False), (0, True), (1, True), (999, True)):
+            c = to_utc + datetime.timedelta(milliseconds=ms)
+            cur = c.strftime('%Y-%m-%dT%H:%M:%S') + f'.{c.microsecond // 1000:03d}+00:00'
+            src = f"A\n<{TL} to='{base.strftime('%Y-%m-%d %H:%M:%S')}'>\nB\n</{TL}>\nC\n"
+            exp = 'A\nC\n' if ready else src
+            out.append((dict(cfg(current=cur, offset=o), mode='clean', source=src, ds='<', de='>'),
+                        (lambda e, dd, oo: lambda r: None if r.get('ok') and r.get('output') == e else f'expiry decision wrong at now - to = {dd} ms, offset {oo}: ' + json.dumps(r, ensure_ascii=False)[:160])(exp, ms, o)))
     bad_to = ['2024/01/01 00:00:00', '2020-01-01', '2020-13-01 00:00:00', '2020-01-01 25:00:00', '2020-01-01 00:00:00 +09:00', '', 'yesterday']
     bad_off = ['', '0900', '+09', 'Z', 'JST', '+25:00', '+09:00:00', '+0900 JST', '+09:00Z', '+00:00 UTC', '-0330x', '+09000', '+09:00 ', '+9:00']
     for t in bad_to:
@@ -458,6 +469,9 @@ def gen_list_all(seed, big):
         "<%(tl)s skip to='2999-01-01 00:00:00'>\nx\n</%(tl)s>\n<%(rm)s name='f1'>\ny\n</%(rm)s>\n",
         "x\n<%(rm)s name='f1' unwrap-block>\nif a {\n  <%(rm)s name='p' skip>\n  k\n  </%(rm)s>\n  m\n}\n</%(rm)s>\nz\n",
         "<%(rm)s name='p'>\n<%(tl)s to='2999-01-01 00:00:00' skip>\na\n</%(tl)s>\n</%(rm)s>\n<other name='f1'>\nb\n</other>\n",
+        # a pending element that opens in the kept body of a ready unwrap-block and closes on the closing wrapper line
+        # straddles the closing part: it does not lie wholly inside a Ready region, so it is listed
+        "<%(tl)s to='2000-01-01 00:00:00' unwrap-block>\nif (r) {\n  run();\n  <%(rm)s name='p'>\n  legacy();\n} </%(rm)s>\n</%(tl)s>\ndone();\n",
         # a skip attribute that carries a value is a skip attribute all the same
         "a\n<%(tl)s to='2001-01-01 00:00:00' skip=\"true\">\nb\n</%(tl)s>\nc\n",
         "a\n<%(rm)s name='p' skip='yes'>\nb\n</%(rm)s>\n<%(rm)s name='f1'>\ny\n</%(rm)s>\n",
@@ -469,7 +483,7 @@ def gen_list_all(seed, big):
         "start()\n<%(tl)s to='2999-12-31 23:59:59' unwrap-block>\nif (r) {\n  a()\n  <%(rm)s name='p'>\n  b()\n  </%(rm)s>\n  c()\n}\n</%(tl)s>\nend()\n",
         "<%(rm)s name='p' unwrap-block>\n{\n  <%(rm)s name='p'>\n  x\n  </%(rm)s>\n  m\n  <%(tl)s to='2999-01-01 00:00:00' unwrap-block>\n  {\n    y\n  }\n  </%(tl)s>\n}\n</%(rm)s>\n",
     ]
-    expect = [(2, 1), (0, 1), (1, 2), None, None, (0, 0), (0, 1), (0, 2), (1, 0), (0, 0), (0, 1), (0, 1), (1, 0), (1, 0), (3, 0), (5, 0)]
+    expect = [(2, 1), (0, 1), (1, 2), None, None, (0, 0), (0, 1), (0, 2), (1, 0), (1, 2), (0, 0), (0, 1), (0, 1), (1, 0), (1, 0), (3, 0), (5, 0)]
     for d, e in zip(docs, expect):
         src = d % {'rm': RM, 'tl': TL}
         out.append((dict(cfg(), mode='list_all_json', source=src, ds='<', de='>', _pair='list_json'), ('LIST_ALL', src, e)))
